@@ -125,6 +125,7 @@ type State struct {
 	facts  map[string]bool    // atoms assumed on this path (exact term text -> truth value)
 	eqs    map[string]string  // term -> integer literal it is known to equal
 	shared []*Cell            // variables written by goroutines started on this path
+	snaps  map[string]*Value  // named snapshots taken at call sites on this path
 }
 
 func (s *State) top() *Frame { return s.frames[len(s.frames)-1] }
@@ -141,6 +142,7 @@ func (s *State) clone() *State {
 		extra:  s.extra,
 		heads:  s.heads,
 		shared: s.shared,
+		snaps:  s.snaps,
 		facts:  make(map[string]bool, len(s.facts)),
 		eqs:    make(map[string]string, len(s.eqs)),
 	}
